@@ -233,30 +233,35 @@ def _task(t):
         if any(ik == "K" and not (0 <= i < d) for ik, i, d in zip(e[1], e[2], dims)):
             continue                    # public index outside the bounds: plain IndexError, no system
         inb = all(0 <= i < d for i, d in zip(e[2], dims))
-        inst = _instance(shape, e, p, ign=not inb)
-        if inst is None:
-            continue
-        st["e2_instances"] += 1
-        try:
-            sols, undec, s = W.exact(inst.cons, inst.nvars, inst.fixed, p)
-        except W.Capped:
-            st["undecided"] += 1
-            continue
-        st["nodes"] += s["nodes"]
-        if undec:
-            st["undecided"] += 1
-            continue
-        if not inb:
-            if sols:
-                report("out-of-range-index-provable", (e,), "index %s outside an array of shape %s: the emitted system "
-                       "has %d satisfying assignment families" % (list(e[2]), list(dims), len(sols)))
-            continue
-        for f in e2.classify(inst, sols):
-            if f["klass"] == "undecided-dependent":
+        for after_guard in (False, True):
+            if after_guard and (len(dims) > 1 or e[0] == "write" and e[3] == "K"):
+                continue
+            inst = _instance(shape, e, p, ign=not inb, after_guard=after_guard)
+            if inst is None:
+                continue
+            st["e2_instances"] += 1
+            try:
+                rel = {v for w in inst.wires for v in w if v != 0} if after_guard else None
+                sols, undec, s = W.exact(inst.cons, inst.nvars, inst.fixed, p, relevant=rel, honest=inst.assignment if after_guard else None)
+            except W.Capped:
                 st["undecided"] += 1
                 continue
-            report("access-not-unique", (e,), "%s: wire #%d can be proven to be something else than the honest result"
-                   % (f["klass"], f["wire_index"]))
+            st["nodes"] += s["nodes"]
+            if undec:
+                st["undecided"] += 1
+                continue
+            hist = ((("read-in-untaken-branch",) + e[1:3],) if after_guard else ()) + (e,)
+            if not inb:
+                if sols:
+                    report("out-of-range-index-provable", hist, "index %s outside an array of shape %s: the emitted system "
+                           "has %d satisfying assignment families" % (list(e[2]), list(dims), len(sols)))
+                continue
+            for f in e2.classify(inst, sols):
+                if f["klass"] == "undecided-dependent":
+                    st["undecided"] += 1
+                    continue
+                report("access-not-unique", hist, "%s: wire #%d can be proven to be something else than the honest result"
+                       % (f["klass"], f["wire_index"]))
     return {"st": st, "viols": viols}
 
 
@@ -270,7 +275,7 @@ def _cells(arr):
     return out
 
 
-def _instance(shape, e, p, ign):
+def _instance(shape, e, p, ign, after_guard=False):
     H.R.p = p
     H.R.want_sites = True
     H.reset(bitlength=BITLEN)
@@ -279,10 +284,18 @@ def _instance(shape, e, p, ign):
     idx = tuple(rt.PrivVal(i) if ik == "S" else i for ik, i in zip(e[1], e[2]))
     idx = idx[0] if len(idx) == 1 else idx
     wv = rt.PrivVal(9) if (e[0] == "write" and e[3] == "S") else 9
+    if after_guard:
+        # history: the same index OBJECT is first used for a read inside a branch that is not taken
+        c = H.boolean.PrivValBool(0)
     fixed = {i: H.R.vars[i - 1][1] % p for i in range(1, len(H.R.vars) + 1)}
     if ign:
         rt.ignore_errors(True)
     try:
+        if after_guard:
+            def untaken():
+                r = arr[idx]
+                return r if isinstance(r, (rt.LinComb, H.boolean.LinCombBool)) else 0
+            H.branching.if_then_else(c, untaken, 0)
         if e[0] == "read":
             res = arr[idx]
             wires = [dict(lc.lc.lc) for lc in H.secrets_in(res)]
